@@ -19,7 +19,7 @@ import (
 func init() {
 	Register(&Monitor{
 		ID: "C04",
-		Rule: "per case one generated document plus 60 values per type: (i) API level Result.String()/Number()/Bool() of xsel.Number/String/Bool/NodeSet values; (ii) expression level string($v), number($v), boolean($v), not(not($v)), $v + 0, concat($v,''), $v and true(), string-length($v) with $v bound to values of all four types (boundary doubles, random bit patterns, numeric-lexical strings and near misses over {0-9 . - + e E x I n f N a _ space tab CR LF NBSP}, node-sets from reverse axes / unions / reverse-ordered variables); (iii) xsel.GetCursorString on every node (every fourth case through the XML text and ReadXml); (iv) the typed entry points ExecAsString / ExecAsNumber / ExecAsNodeset on random expressions of all four result types from random context nodes: string() / number() of the model's result, the node-set itself, an error for ExecAsNodeset on the other types. " +
+		Rule: "per case one generated document plus 60 values per type: (i) API level Result.String()/Number()/Bool() of xsel.Number/String/Bool/NodeSet values; (ii) expression level string($v), number($v), boolean($v), not(not($v)), $v + 0, concat($v,''), $v and true(), string-length($v) with $v bound to values of all four types (boundary doubles, random bit patterns, numeric-lexical strings and near misses over {0-9 . - + e E x I n f N a _ space tab CR LF NBSP}, node-sets from reverse axes / unions / reverse-ordered variables); (iii) xsel.GetCursorString on every node (every fourth case through the XML text and ReadXml; every tenth case is an HTML tag soup with character references, raw-text elements and foreign content read with ReadHtml and judged against the HTML5 parse tree); (iv) the typed entry points ExecAsString / ExecAsNumber / ExecAsNodeset on random expressions of all four result types from random context nodes: string() / number() of the model's result, the node-set itself, an error for ExecAsNodeset on the other types. " +
 			"Oracle: reference conversions written from XPath 1.0 §3.4/§4.2-4.4 (string(number) accepted iff right lexical form and reads back to the same double). Relations: number(string(x)) = x for finite x, boolean(x) = not(not(x)), string(ns) = string of the first node in document order. " +
 			"distinct_nontrivial = distinct (conversion, value class/value) pairs",
 		Assumptions: []string{"'shortest' decimal expansion is not demanded of string(number), only round-trip and lexical form"},
@@ -49,7 +49,42 @@ func dclass(f float64) string {
 	return "frac"
 }
 
+// c04HTML: string-values and the conversions built on them for documents read with ReadHtml;
+// the reference is the HTML5 parse tree (character references decoded exactly once, raw text
+// elements not at all).
+func c04HTML(r *evid.Run, idx int, g *rng.R) {
+	w, src, err := newHTMLWorld(g)
+	r.Count("cases_through_ReadHtml", 1)
+	if err != nil {
+		r.Violate("string-value/through-ReadHtml", map[string]any{"case": idx, "what": "the tree ReadHtml built differs from the HTML5 parse tree of the same text: " + err.Error(), "html": src})
+		return
+	}
+	if w == nil {
+		return
+	}
+	self := xast.Rel(xast.Step{Axis: "self", Test: xast.NodeT(), Abbrev: true})
+	for _, n := range w.d.All {
+		got := xsel.GetCursorString(w.m.ToC[n])
+		r.Eval(1)
+		r.Tab("string_value_kind", "html:"+n.Kind.String(), 1)
+		if want := n.StringValue(); got != want {
+			r.Violate("string-value/html/"+n.Kind.String(), map[string]any{"case": idx, "what": fmt.Sprintf("GetCursorString(%s) = %q, expected %q", n.Path(), got, want), "html": src})
+			continue
+		}
+		if n.Kind == adoc.Text || n.Kind == adoc.Attr || (n.Kind == adoc.Elem && len(n.Children) < 3) {
+			for _, f := range []string{"string", "number", "boolean", "string-length"} {
+				w.check(r, "html-conversion/"+f, idx, n, xast.Fn(f, self), false)
+			}
+		}
+		r.Sig("svh|"+n.Kind.String()+"|"+n.StringValue(), true)
+	}
+}
+
 func c04Case(r *evid.Run, tier string, idx int, g *rng.R) {
+	if idx%10 == 6 {
+		c04HTML(r, idx, g)
+		return
+	}
 	o := adoc.GenOpts{MinNodes: 5, MaxNodes: 40, NS: g.Intn(2), Misc: true, NumericText: g.P(60), Unicode: g.P(30)}
 	if idx%4 == 1 {
 		o.XMLSafe, o.NoAdjText = true, true
